@@ -171,6 +171,16 @@ EofOnlyAtEnd == c.status = "eof" => c.eof /\ c.i = Len(c.toks)
 \* acceptance consumes the whole input
 AcceptConsumesAll == c.status = "accept" => c.eof /\ c.i = Len(c.toks)
 
+\* The REPL (repl.py) keeps reading lines while the parser says `Unexpected end
+\* of input`: ending the input must never produce any *other* syntax error -
+\* a viable prefix is reported as incomplete, not as wrong.
+\* NOT one of the listed properties and it does NOT hold (Parser_repl.cfg shows
+\* the counterexample `x starts <end of input>`: the multi-word predicates
+\* `starts with`, `ends with`, `date with hour` are matched with bounded
+\* look-ahead, a truncated one falls through to "Expected end of input");
+\* recorded as an observation in DESIGN.md, not used by any check.
+EndOfInputIsEof == [][(c'.eof /\ ~c.eof) => c'.status \in {"run", "accept", "eof", "deep"}]_c
+
 Terminal == c.status # "run"
 Rec == [toks |-> c.toks, status |-> c.status, errAt |-> c.errAt, depth |-> Len(c.stack)]
 ExportRuns == (Export /\ Terminal) => PrintT("@@PARSE@@" \o ToJson(Rec))
